@@ -3,7 +3,7 @@
 import ast
 import struct
 
-from ..model import clone, norm, head, walk_no_nested, FuncInfo, ClassInfo, AnalysisError, enclosing_stmt
+from ..model import clone, norm, head, walk_no_nested, FuncInfo, ClassInfo, AnalysisError, enclosing_stmt, last_live
 from ..cfg import cfg_of
 from ..resolve import Resolver, Ctx
 from ..symlen import LenEval, Unsupported, show, class_consts, ConstEnv
@@ -383,6 +383,22 @@ def rule_window(report, prog, res):
               and isinstance(i.body[-1], ast.Raise)]
     report.check(has_size and len(guards) >= 1, 'C11-R3', key(pd.qname, 'a TLV longer than the size it is given is rejected'), pd.loc(),
                  'Parameter.decode does not compare the TLV length with the remaining size it is given')
+    # ... and exactly: T and L take two byte, so the TLV fits iff 2 + L <= size
+    exact = False
+    for g in guards:
+        for cmp_ in [x for x in ast.walk(g.test) if isinstance(x, ast.Compare) and len(x.ops) == 1]:
+            d = linear(cmp_.left)
+            for k, v in linear(cmp_.comparators[0]).items():
+                d[k] = d.get(k, 0) - v
+            d = {k: v for k, v in d.items() if v}
+            op = type(cmp_.ops[0])
+            # reject iff 2 + L > size  <=>  L - size + 2 > 0  <=>  L - size + 1 >= 0  (and the mirrored forms)
+            if (op is ast.Gt and d == {'L': 1, 'size': -1, '1': 2}) or (op is ast.GtE and d == {'L': 1, 'size': -1, '1': 1}) or \
+                    (op is ast.Lt and d == {'L': -1, 'size': 1, '1': -2}) or (op is ast.LtE and d == {'L': -1, 'size': 1, '1': -1}):
+                exact = True
+    report.check(exact or not guards, 'C11-R3', key(pd.qname, 'the TLV fits iff 2 + L <= size'), pd.loc(guards[0]) if guards else pd.loc(),
+                 'Parameter.decode compares the TLV length with the remaining size without counting the two bytes of T and L (or with another '
+                 'offset): a TLV can run past the end of its PDU')
     report.floor('C11-R3 reads', n_reads, 30)
     report.floor('C11-R3 TLV loops', tlv_loops, 5)
 
@@ -623,6 +639,47 @@ def rule_tlv(report, prog, res):
 
 
 # ------------------------------------------------------------------------------ R7
+
+def rule_tlv_limits(report, prog, res):
+    """R6 (limits): the TLV length field is one octet.  Where the encoder refuses a value because of its length, it refuses exactly
+    the values whose length field would exceed 255 -- a tighter test rejects values the decoder accepts (decode then encode fails)."""
+    par = prog.cls(PDU + '.Parameter')
+    enc = par.methods['encode']
+    n = 0
+    for i in ast.walk(enc.node):
+        if not (isinstance(i, ast.If) and isinstance(last_live(i.body), ast.Raise) and isinstance(i.test, ast.Compare) and len(i.test.ops) == 1):
+            continue
+        left = i.test.left
+        if not (isinstance(left, ast.Call) and norm(left.func) == 'len' and len(left.args) == 1):
+            continue
+        c = try_const(i.test.comparators[0])
+        if not isinstance(c, int):
+            continue
+        op = type(i.test.ops[0])
+        first_refused = c + 1 if op is ast.Gt else (c if op is ast.GtE else None)
+        if first_refused is None:
+            continue
+        name = norm(left)
+        # the length field written for that value: second argument after the format of the struct.pack in the same block
+        blk = getattr(i, '_parent', None)
+        sibs = []
+        for fld in ('body', 'orelse'):
+            b = getattr(blk, fld, None)
+            if isinstance(b, list) and i in b:
+                sibs = b[b.index(i):]
+        k = None
+        for st in sibs:
+            for call in ast.walk(st):
+                if isinstance(call, ast.Call) and norm(call.func) == 'struct.pack' and len(call.args) >= 3:
+                    lin = linear(call.args[2])
+                    if lin.get(name) == 1 and set(lin) <= {name, '1'}:
+                        k = lin.get('1', 0)
+        n += 1
+        report.check(k is not None and first_refused + k == 256, 'C11-R6', key(enc.qname, 'a value is refused iff its length field would exceed 255', i.test),
+                     enc.loc(i), 'Parameter.encode refuses %s from %d on while the length field is %s + %s: the largest length the one octet field '
+                     'can carry is refused (or an overlong one is packed)' % (name, first_refused, name, k))
+    report.floor('C11-R6 limits', n, 2)
+
 def rule_recursion(report, prog, res, rule='C11-R7'):
     """Call-graph cycles inside the decode cone must carry a tested depth parameter."""
     edges = {}
@@ -704,6 +761,7 @@ def run(report, prog, tier):
     rule_dispatch(report, prog, res)
     rule_bitfields(report, prog, res)
     rule_tlv(report, prog, res)
+    rule_tlv_limits(report, prog, res)
     rule_recursion(report, prog, res)
     report.trusted += ['struct.calcsize / struct.pack semantics of the checker interpreter',
                        'induction: len(x.encode()) == len(x) for aggregated sub-PDUs (each class is itself an R1 obligation)']
